@@ -30,9 +30,44 @@ def run(chk):
     fails = gp_common.suite(chk, n, "liveness", OWN, rops=40, uops=3)
     if not fails:
         fails = gp_common.sweep(chk, OWN, wide=(chk.tier == "thorough"))
+    if not fails:
+        fails = waiter_stage(chk)
     h = chk.cov.get("branch_histogram", {})
     chk.cov["futex_paths"] = {k: v for k, v in h.items() if "futex" in k or "wake" in k or "waiter" in k}
     gp_common.report(chk, fails, OWN, gp_common.search_own(chk, OWN, "liveness", 300 if chk.tier == "quick" else 3000))
+
+
+def waiter_stage(chk):
+    """Directed runs for the wait node of merged callers (urcu-wait.h): three concurrent synchronize_rcu() callers behind a
+    reader parked long enough for the merged callers to exhaust URCU_WAIT_ATTEMPTS and sleep on their own node, with
+    spurious / EINTR returns injected into that futex wait.  Coverage of waiter_futex_{SLEEP,EINTR,SPURIOUS} is required."""
+    hist = chk.cov.setdefault("branch_histogram", {})
+    fails = []
+    n = 10 if chk.tier == "quick" else 120
+    runs = 0
+    for flavor, memb, cname in [c for c in gp_common.CONFIGS if c[0] in ("memb", "mb")]:
+        for k in range(n):
+            sd = chk.seed * 1000 + 500 + k
+            faults = ["spur=300,eintr=400,enosys=0", "spur=0,eintr=600,enosys=0", "spur=600,eintr=0,enosys=0", "spur=200,eintr=200,enosys=100"][k % 4]
+            r = gp_common.one(flavor, memb, sd, 1 + k % 2, 3, 12, 3, ["--parklen", "30000", "--nochurn", "--faults", faults, "--pswitch", str([5, 15, 30][k % 3])])
+            chk.cov["evaluations"] += 1
+            runs += 1
+            if r["verdict"] == "ok":
+                chk.cov["events_compared"] = chk.cov.get("events_compared", 0) + r["events"]
+                for kk, vv in r["cov"].items():
+                    hist[kk] = hist.get(kk, 0) + vv
+            else:
+                r["config"] = cname
+                fails.append(r)
+                break
+        if fails:
+            break
+    chk.cov["waiter_stage_runs"] = runs
+    missing = [b for b in ("waiter_futex_SLEEP", "waiter_futex_EINTR", "waiter_futex_SPURIOUS") if not hist.get(b)]
+    chk.cov["waiter_stage_missing"] = missing
+    if missing and not fails:
+        chk.notes.append("waiter stage did not reach: " + ", ".join(missing))
+    return fails
 
 
 def replay(rp):
